@@ -556,11 +556,22 @@ def gen_prog(rng, safe, size):
         is_stop[k] = st[0] in ("zom_stop", "oom_stop")
         return k
 
+    used = set()
+
     def fresh_name():
+        # distinct strings, some of which differ only in case / punctuation (bookmark normalisation)
         name_ctr[0] += 1
         if not safe and rng.random() < 0.15:
             return rng.choice(["n1", "n2", "..."])
-        return f"n{name_ctr[0]}"
+        for _ in range(8):
+            k = rng.randint(1, 4)
+            nm = rng.choice([f"n{k}", f"N{k}", f"n {k}", f"n-{k}", f"n.{k}", f"{k}n", f"stmt {k}"])
+            if nm not in used:
+                used.add(nm)
+                return nm
+        nm = f"name{name_ctr[0]}"
+        used.add(nm)
+        return nm
 
     fwds = [add(["fwd"], fwd=True) for _ in range(rng.choice([0, 0, 1, 1, 2]))]
     pool = [add(list(rng.choice(LEAVES))) for _ in range(rng.randint(2, 4))]
@@ -666,9 +677,10 @@ WITNESS = {
     "diagram_root_revisited": ({"prog": [["fwd"], ["name", 0, "E"], ["lit", "("], ["lit", ")"], ["and", [2, 0, 3]],
                                          ["word", "01"], ["mf", [5, 4]], ["assign", 0, 6]], "root": 4},
                                "root_first"),
-    "diagram_same_name_merge": ({"prog": [["word", "a"], ["lit", "x"], ["plus", 0, 1], ["name", 2, "n"],
-                                          ["word", "b"], ["lit", "y"], ["plus", 4, 5], ["name", 6, "n"],
-                                          ["plus", 2, 6]], "root": 8}, "tokens_covered"),
+    "diagram_same_name_merge": ({"prog": [["word", "a"], ["lit", "x"], ["plus", 0, 1], ["group", 2],
+                                          ["name", 3, "n"], ["word", "b"], ["lit", "y"], ["plus", 5, 6],
+                                          ["group", 7], ["name", 8, "n"], ["plus", 3, 8]], "root": 10},
+                                "tokens_covered"),
 }
 
 
@@ -805,10 +817,10 @@ def run(ctx):
     for c in corpus:
         cases.append((c["case"], c.get("opts", OPTS0), c.get("safe", True)))
     rng = ctx.subrng("gen")
-    n_safe = ctx.budget(1500, 20000)
-    n_any = ctx.budget(700, 8000)
+    n_safe = ctx.budget(8000, 150000)
+    n_any = ctx.budget(4000, 60000)
     for i in range(n_safe):
-        cases.append((gen_prog(rng, True, rng.randint(2, 9)), gen_opts(rng), True))
+        cases.append((gen_prog(rng, True, rng.randint(2, ctx.budget(9, 14))), gen_opts(rng), True))
     for i in range(n_any):
         cases.append((gen_prog(rng, False, rng.randint(2, 9)), gen_opts(rng), False))
     _judge(ctx, cases, "gen")
@@ -891,12 +903,12 @@ def _judge(ctx, cases, stream, correspond=True):
                                theorem="C20 " + probs2[0][0], how=_how(case2, opts2))
 
 
-def _fails(case, opts, clause):
+def _fails(case, opts, clause, any_region=False):
     try:
         out = run_case(case, opts)
     except Exception:
         return None
-    if regions(out["nodes"], opts, out["has_stop"]) - {"stop_on"}:
+    if not any_region and regions(out["nodes"], opts, out["has_stop"]) - {"stop_on"}:
         return None
     hit = [p for p in out["probs"] if p[0] == clause]
     return out["probs"] if hit else None
@@ -947,7 +959,9 @@ def shrink(case, opts, clause):
     """greedy: simpler options, an earlier definition as root, children instead of composites, pruning"""
     first = _fails(case, opts, clause)
     if not first:
-        return case, opts, [(clause, "not reproducible in isolation")]
+        # battery grammars (infix_notation, nested_expr: copies with equal names) are judged as they are
+        first = _fails(case, opts, clause, any_region=True)
+        return case, opts, first or [(clause, "not reproducible in isolation")]
     best = (case, opts, first)
     for o2 in (dict(opts, names=False), dict(opts, groups=False), dict(opts, hidden=False),
                dict(opts, vertical=3), OPTS0):
